@@ -237,7 +237,8 @@ class C12(Prop):
 
     def model_many(self, cases):
         states = [c.get("_state") for c in cases]
-        res = model.call_many("close", [s for s in states if s is not None])
+        stall = lambda c: [] if c.get("close_stall", 0) >= 10 ** 6 else [int(c.get("close_stall", 0))]
+        res = model.call_many("close", [s + [stall(c)] for c, s in zip(cases, states) if s is not None])
         it = iter(res)
         out = []
         for c, s in zip(cases, states):
